@@ -463,6 +463,16 @@ void gen(uint64_t seed, int tier, sim::Plan &p) {
         sim::Op cp; cp.thr = t; cp.kind = OP_CHECKPOINT; cp.a = 0;
         p.ops.push_back(cp);
         p.cfg["alloc_yield"] = 0;
+        if (nw > 1 && p.get("backtrace_mode", 0) == 5) {
+            // with thousands of stacks on record: every thread meets at a barrier, then allocates from fresh call stacks while the others
+            // dump (a dump may land between the two halves of another thread's bookkeeping); the run ends with a dump of what is live
+            for (int u = 1; u <= nw; u++) if (u != t) { sim::Op c2; c2.thr = u; c2.kind = OP_CHECKPOINT; c2.a = 0; p.ops.push_back(c2); }
+            for (int k = 0; k < 3; k++)
+                for (int u = 1; u <= nw; u++) {
+                    sim::Op a; a.thr = u; a.kind = OP_ACQ; a.a = r.range(1, 64); p.ops.push_back(a);
+                    sim::Op d; d.thr = u; d.kind = r.chance(0.6) ? OP_DUMP : OP_YIELD; p.ops.push_back(d);
+                }
+        }
     }
     // "same size" reallocs: b == -1 means keep the current size; resolved at run time (see below)
     p.cfg["soft_budget"] = 200000;
